@@ -514,5 +514,5 @@ def run(ctx):
     ctx.floor("O7", "text routes into SafeLong", n7, 2)
     # ---------------- O6 in-range safelong map keys are not refused by Any's key coercion (shared with C13 R13.3)
     from . import c13
-    ctx.include(c13, {"R13.3"}, "O6", "an in-range safelong used as a map key inside an Any must be accepted")
+    ctx.include(c13, {"R13.3", "R13.2"}, "O6", "a safelong read through the dynamic `any` must keep its value: in-range map keys are accepted, integers are carried in a variant of their own width (an out-of-range u64 must not wrap into range)")
 
